@@ -1397,8 +1397,9 @@ seq_t dtw_warping_paths_ndim(seq_t *wps,
         rvalue = -1;
     }
 
-    if (settings->max_dist > 0 && rvalue > settings->max_dist) {
+    if (settings->max_dist > 0 && rvalue > p.max_dist) {
         // DTWPruned keeps the last value larger than max_dist. Correct for this.
+        // Both values are in the internal representation (p.max_dist, not settings->max_dist).
         rvalue = INFINITY;
     }
     if (!keep_int_repr) {
@@ -1779,8 +1780,9 @@ seq_t dtw_warping_paths_ndim_euclidean(seq_t *wps,
         rvalue = -1;
     }
 
-    if (settings->max_dist > 0 && rvalue > settings->max_dist) {
+    if (settings->max_dist > 0 && rvalue > p.max_dist) {
         // DTWPruned keeps the last value larger than max_dist. Correct for this.
+        // Both values are in the internal representation (p.max_dist, not settings->max_dist).
         rvalue = INFINITY;
     }
 
